@@ -89,7 +89,9 @@ func extractRegistry(p *Program, v *types.Var) (*Registry, error) {
 	var mk ssa.Value
 	for _, sv := range storedInto(init, g) {
 		if mk != nil {
-			return nil, fmt.Errorf("registry %s is assigned more than once", v.Name())
+			// stored element by element (an array literal indexed by function code) or in several steps: read
+			// off the evaluated state of the package after initialisation
+			return registryFromInitState(p, v, g)
 		}
 		mk = sv
 	}
